@@ -435,7 +435,12 @@ def run(c):
                   "is hand-written; tied by executing routed queries on both; the routing DECISION is taken from the implementation and audited against `exactly_derivable`",
                   "DuckDB 1.3.2 executes the layer's own materialisation statement and both forms of every query"]
     c.assumptions += ["the rollup table is built by PreAggregation.generate_materialization_sql from the same data", "theorem values are non-NULL integers; NULL measure values are covered by the executed comparison only"]
-    from translator import gen_derivable, gen_grancompat, gen_materialize, gen_satisfy, gen_tryroute
+    from translator import gen_derivable, gen_grancompat, gen_materialize, gen_routed, gen_satisfy, gen_tryroute
+    try:
+        same = gen_routed.table(lib.REPO) == gen_routed.table(lib.REPO, real=True)
+        c.obligation("translator validation: interpreted _generate_from_preaggregation == the real method under CPython on 198 scripted queries", same, "translator")
+    except Exception as e:
+        c.obligation("translator validation: interpreted _generate_from_preaggregation == the real method", False, "translator", repr(e)[-900:])
     try:
         same = gen_tryroute.table(lib.REPO) == gen_tryroute.table(lib.REPO, real=True)
         c.obligation("translator validation: interpreted _try_use_preaggregation == the real method under CPython on 814 scripted scenarios", same, "translator")
@@ -452,7 +457,7 @@ def run(c):
     except Exception as e:
         c.obligation("translator validation: interpreted can_satisfy_query == the real method", False, "translator", repr(e)[-900:])
     c.trusted.append("translator/pyinterp.py + gen_satisfy.py (fail-closed definitional interpreter; the matcher's three helper decisions are scripted oracles there; validated against CPython each run)")
-    for name, mod in (("Derivable_gen", gen_derivable), ("GranCompat_gen", gen_grancompat), ("Satisfy_gen", gen_satisfy), ("Materialize_gen", gen_materialize), ("TryRoute_gen", gen_tryroute)):
+    for name, mod in (("Derivable_gen", gen_derivable), ("GranCompat_gen", gen_grancompat), ("Satisfy_gen", gen_satisfy), ("Materialize_gen", gen_materialize), ("TryRoute_gen", gen_tryroute), ("Routed_gen", gen_routed)):
         try:
             lib.write_if_changed("%s/Gen/%s.v" % (lib.COQ, name), mod.generate(lib.REPO))
             c.obligation("translator: %s regenerated" % name, True, "translator")
